@@ -39,14 +39,15 @@ MergeOf(t) == {[kind |-> "merge", t |-> t, regs |-> SetToSeq(r), customs |-> Set
 
 \* tolerant decoding: field kind x JSON form
 Forms == [ aud     |-> {"string", "array", "emptyarray", "null", "number", "object", "bool", "arrayNonString", "nestedArray"},
+           \* farFuture: the usual "never expires" number 253402300799 (9999-12-31T23:59:59Z)
            \* rfc3339*: the same instant written with a numeric zone offset, with a fraction of a second, with both
-           time    |-> {"number", "float", "negnumber", "rfc3339", "rfc3339Offset", "rfc3339Frac", "rfc3339FracOffset", "rfc3339FracNegOffset", "badstring", "null", "bool", "object", "array", "bigfloat", "numericString"},
+           time    |-> {"number", "float", "negnumber", "rfc3339", "rfc3339Offset", "rfc3339Frac", "rfc3339FracOffset", "rfc3339FracNegOffset", "farFuture", "badstring", "null", "bool", "object", "array", "bigfloat", "numericString"},
            locale  |-> {"tag", "emptyString", "unknownTag", "unknownSubtag", "unknownScript", "unknownLang", "malformedTag", "number", "null", "object"},
            locales |-> {"spaceDelimited", "array", "withUnknown", "emptyString", "null", "number", "object", "arrayNonString"},
            bool    |-> {"true", "stringTrue", "false", "stringFalse", "stringOther", "number", "null", "object"},
            sda     |-> {"string", "single", "emptyString", "array", "null", "number"} ]
 Documented == [ aud     |-> {"string", "array"},
-                time    |-> {"number", "float", "negnumber", "rfc3339", "rfc3339Offset", "rfc3339Frac", "rfc3339FracOffset", "rfc3339FracNegOffset"},
+                time    |-> {"number", "float", "negnumber", "rfc3339", "rfc3339Offset", "rfc3339Frac", "rfc3339FracOffset", "rfc3339FracNegOffset", "farFuture"},
                 locale  |-> {"tag"},
                 locales |-> {"spaceDelimited", "array", "withUnknown"},
                 bool    |-> {"true", "stringTrue"},
